@@ -50,3 +50,12 @@ pub proof fn lemma_add_empty()
 {
     assert forall|s: Seq<u8>| #[trigger] (s + Seq::<u8>::empty()) == s by { assert(s + Seq::<u8>::empty() =~= s); }
 }
+
+// a later write at or above position q + n leaves the window [q, q+n) alone
+pub proof fn lemma_at_below(b: Seq<u8>, p: int, w: Seq<u8>, q: int, n: int)
+    requires 0 <= q, 0 <= n, q + n <= p, q + n <= b.len()
+    ensures at(put(b, p, w), q, n) == at(b, q, n), inb(put(b, p, w), q, n)
+{
+    reveal(put);
+    assert(at(put(b, p, w), q, n) =~= at(b, q, n));
+}
